@@ -1484,8 +1484,33 @@ func (c *Ctx) c17Isolated() {
 			if !ok {
 				return
 			}
+			// an exposure: the event is handed to a function of the package that turns it into Lua
+			// user data (wrapX(ls, &msg)), or to a helper together with such a function
+			// (invoke(c, 1, &msg, wrapInboundMessage))
+			isWrap := func(g *ssa.Function) bool {
+				if g == nil || eng.FuncPkgPath(g) != eng.Mod+"/"+luaRel {
+					return false
+				}
+				res := g.Signature.Results()
+				for i := 0; i < res.Len(); i++ {
+					if pt, ok := res.At(i).Type().(*types.Pointer); ok {
+						if n, ok := pt.Elem().(*types.Named); ok && n.Obj().Name() == "LUserData" {
+							return true
+						}
+					}
+				}
+				return false
+			}
 			g := eng.StaticCallee(call.Common())
-			if g == nil || !strings.HasPrefix(g.Name(), "wrap") || eng.FuncPkgPath(g) != eng.Mod+"/"+luaRel {
+			exposes := isWrap(g)
+			if !exposes && g != nil && (eng.FuncPkgPath(g) == eng.Mod+"/"+luaRel || g.Pkg == nil) {
+				for _, a := range call.Call.Args {
+					if f, _, isF := eng.FuncValueOf(a); isF && isWrap(f) {
+						exposes = true
+					}
+				}
+			}
+			if !exposes {
 				return
 			}
 			for _, a := range call.Call.Args {
